@@ -447,7 +447,11 @@ def eng_capacity(ctx):
     if ctx.thorough:
         maxes += [3, 999, 5000, 196608, 0, -1]
     cases = seeded(gen.capacity_cases(backlogs, maxes))
-    out = ctx.seq("capacity", cases, relevant={"PULL", "STATS", "PUB", "PUBN"}, triggers={"PULL"}, monitor=M.mon_batch)
+    if not ctx.thorough:
+        # one backlog larger than the 16-bit range in the quick tier too: a limit that wraps to 0 must not release it
+        cases += seeded(gen.capacity_cases([65540], [65536], prefix="capx"))
+    out = ctx.seq("capacity", cases, relevant={"PULL", "STATS", "PUB", "PUBN"}, triggers={"PULL"}, monitor=M.mon_batch,
+                  always_monitor=True)
     if out:
         return out
     smax = [0, 1, 2, 1000, 1001, 65535, 65536, -1, 2147483647]
@@ -615,7 +619,11 @@ reg("C11", [eng_control_random(M.mon_namespace, {"DT", "DS"}, always=True),
     level_text="Proved for every reachable state: a live topic lists exactly the live subscriptions created on that instance; "
                "DeleteSubscription removes it from every list; DeleteTopic keeps the subscriptions, which then report the "
                "sentinel; a re-created namesake is a new instance with no subscription. " + SEQ_NOTE,
-    level_note="Quiescent moments of concurrent histories: see C16.")
+    level_note="Quiescent moments of concurrent histories: proved in the actor model (Props/C11_actors.v: at every quiescent "
+               "reachable state of the repaired code a live topic lists exactly the existing, undeleted subscriptions created "
+               "on it, for every interleaving incl. dropped callers; refuted for the code before fix 2446012), which is "
+               "hand-written and tied to the code by the replayed refutations and the racestress / burst / abandon streams "
+               "(DESIGN 9). 'Keeps serving the messages it holds' after DeleteTopic is a fact of the sequential model.")
 
 reg("C13", [eng_paging_pure, eng_paging_walks, eng_control_random(M.mon_walk, {"LT", "LS", "LTS"})],
     rule="paging-pure: token encode/decode on boundary and random offsets, random and near-miss token strings, "
